@@ -69,6 +69,25 @@ def cases(tier: str, rng: random.Random) -> List[Case]:
                         c = std_case(("Scalar", (kind,), co, [], [p], []), x, rng.choice(["sync", "async"]), tag="c:lookalike")
                         c.proj = "class"
                         out.append(c)
+        # equality validators with processors written for the match's type, against values of every other type
+        for mt, pre in ((G.S("ok"), [("Strip",)]), (G.S("OK"), [("Upper",), ("Strip",)]), (G.B(b"ok"), [("Lower",)]),
+                        (G.I(2), [("ProcUser", N(1))]), (G.S("a"), [("ProcUser", N(2))])):
+            for x in look + [G.OBJ, ("VList", [G.S("ok")]), G.S(" ok "), G.B(b"OK")]:
+                for wrapv in (lambda z: z, lambda z: ("ListV", z, [], [], None), lambda z: ("UnionV", [z, ("NoneV", None)])):
+                    v = wrapv(("EqualsV", mt, pre))
+                    c = std_case(v, ("VList", [x]) if v[0] == "ListV" else x, rng.choice(["sync", "async"]), tag="c:equals-pre")
+                    c.proj = "class"
+                    out.append(c)
+        # list validators whose own predicates pass while an item fails (and the reverse)
+        for ps in ([("PMinItems", 1)], [("PMaxItems", 3), ("PUniqueItems",)], []):
+            for xs in ([G.I(1), G.S("x")], [G.S("x")], [G.I(1), G.I(1)], [], [G.I(1), G.NONE, G.I(2), G.F1]):
+                for kind, shape in (("ListV", "VList"), ("UTupleV", "VTuple"), ("SetV", "VSet")):
+                    v = (kind, ("Scalar", ("KInt",), None, [], [], []), ps, [], None)
+                    items = G.dedupe_hashable(xs) if kind == "SetV" else xs
+                    for m in ("sync", "async"):
+                        c = std_case(v, (shape, items), m, tag="c:preds-pass-item-fails")
+                        c.proj = "class"
+                        out.append(c)
         # container predicates over hostile element lists (unhashables hidden inside hashable-looking items)
         for _ in range(150 if tier == "quick" else 2000):
             xs = [rng.choice(G.HOSTILE) for _ in range(rng.choice([0, 1, 2, 3, 4]))]
@@ -80,6 +99,12 @@ def cases(tier: str, rng: random.Random) -> List[Case]:
             c = std_case(v, ("VList", xs), rng.choice(["sync", "async"]), tag="c:hostile-elements")
             c.proj = "class"
             out.append(c)
+        # instances of record classes holding other instances / opaque objects / containers of them
+        for v, x in G.instance_cases(rng):
+            for m in ("sync", "async"):
+                c = std_case(v, x, m, tag="c:instances")
+                c.proj = "class"
+                out.append(c)
     finally:
         G.WF_ONLY[0] = False
     return out
